@@ -20,7 +20,9 @@ META = {
                    "transitively through delegating methods) reads only num_inputs / num_and_ops, every flush comparison is "
                    "`len >= bound` with a bound from such a method and every chunk_size_iter / chunks argument comes from the same methods; "
                    "(C01.d) a register-indexed slot updated from its own previous value inside a loop (XOR of the peers' output mask shares) "
-                   "is visited once per register: the loop iterates a set, or a sorted and dedup-ed vector; "
+                   "is visited once per register: the loop iterates a set, or a sorted and dedup-ed vector; (C01.e) no fail-closed branch "
+                   "compares own secret values (labels, keys, MACs) without a message component being involved - such an abort can "
+                   "be taken by an all-honest run; "
                    "(C01.c) no literal is used as a party index (peer of a channel operation, xor_key, index into per-party vectors). "
                    "These are necessary conditions for all parties staying in step for every circuit, role assignment and batch count; "
                    "functional correctness of garbling/evaluation is value-level and not decided.",
@@ -303,6 +305,7 @@ def run(ctx, res):
     # (garble: sender flush, receiver chunk_size_iter, evaluator table-share flush; init_and_shares/gen_auth_bits)
     # ------------------------------------------------------------------ (d) accumulate once per register
     accumulate_once(fg, res)
+    spontaneous_aborts(S, fg, res)
     # ------------------------------------------------------------------ (c) literal party indices
     n_idx = 0
     bad = 0
@@ -476,3 +479,57 @@ def accumulate_once(fg, res):
                 res.bad("C01.d", inst, "`%s[reg]` is updated from its own previous value inside a loop over registers that is not known to be duplicate-free (iterator %s%s): a register named twice is accumulated twice (for XOR: cancels)"
                         % (var, ity[:70], "; dedup() alone only removes adjacent repeats" if ops_ == {"dedup"} else ""), where(b, bi))
     res.need("C01.d", "self_dependent_register_updates", n, 1, "register-indexed slots updated from their previous value inside a loop")
+
+
+def spontaneous_aborts(S, fg, res):
+    """C01.e: in an honest run nothing the party computes itself makes it abort: a fail-closed branch
+    whose condition compares own secret values (labels, keys, MACs, share bits) with each other or a
+    constant, and involves no message component, can be taken in an all-honest execution for some
+    circuit / coins (e.g. `label == Label(0)` is true for the wire `x XOR x` under free-XOR)."""
+    from an import edge_fail_closed
+    SECRET = (secmod.T_LABEL, secmod.T_KEY, secmod.T_MAC, secmod.T_DELTA)
+    all_comp = set()
+    for d in S.comp.values():
+        all_comp |= set(d.keys())
+    n = 0
+    bad = 0
+    for k, b in engine_bodies(fg):
+        if not b.owner.startswith("polytune::mpc::protocol::") or "Result" not in b.locals[0]["ty"] and not b.is_coroutine:
+            continue
+        for bi, blk in enumerate(b.blocks):
+            t = blk["t"]
+            if t["k"] != "switch" or t["o"]["k"] == "const" or bi not in b.live_blocks():
+                continue
+            sp = t["sp"]
+            if "|" in sp and any(m in sp for m in ("m:debug", "m:trace", "m:instrument", "m:info", "m:warn", "m:error")):
+                continue
+            tg = [x for x in dict.fromkeys([tb for _v, tb in t["ts"]] + [t["else"]]) if b.blocks[x]["t"]["k"] != "unreachable"]
+            if len(tg) < 2:
+                continue
+            fc = [edge_fail_closed(b, bi, x)[0] for x in tg]
+            if not any(fc) or all(fc):
+                continue
+            # a value comparison (not a presence / discriminant test)
+            cmp_ops = []
+            for st in blk["s"]:
+                if st["k"] == "assign" and st["p"]["l"] == t["o"]["p"]["l"] and st["r"]["k"] == "bin" and st["r"]["op"] in ("Eq", "Ne"):
+                    cmp_ops = [st["r"]["a"], st["r"]["b"]]
+            for pb in b.pred()[bi]:
+                pt = b.blocks[pb]["t"]
+                if pt["k"] == "call" and pt["d"]["l"] == t["o"]["p"]["l"] and callee_names(pt) and callee_names(pt)[0].rsplit("::", 1)[-1] in ("eq", "ne"):
+                    cmp_ops = pt["args"]
+            if not cmp_ops:
+                continue
+            tys = [o["p"]["ty"].lstrip("&") for o in cmp_ops if o["k"] != "const"]
+            if not any(ty in SECRET for ty in tys):
+                continue
+            n += 1
+            back = fg.backward([x for o in cmp_ops if o["k"] != "const" for x in fg.operand_nodes(k, o)], node_ok=lambda x: x[0] == k, local=True)
+            if set(back) & all_comp:
+                continue
+            bad += 1
+            res.bad("C01.e", "%s|abort-on-own-values" % b.owner.rsplit("::", 1)[-1], "an abort is decided by comparing own secret values (%s) that no peer message enters: an all-honest execution takes this branch for some circuits / coins (e.g. the zero label of `x XOR x` is Label(0))" % ", ".join(sorted({ty.rsplit("::", 1)[-1] for ty in tys})), where(b, bi),
+                    key="C01.e|%s" % b.owner.rsplit("::", 1)[-1])
+    res.count("fail_closed_comparisons_of_secret_values", n)
+    if not bad:
+        res.ok("C01.e", "engine", "", "%d fail-closed comparisons of secret-typed values in the protocol walkers: each involves a message component (an abort needs a deviating peer)" % n)
